@@ -36,8 +36,9 @@ inductive From | none | domain | ownBare | ownFull | ownOther | other
 
 /-- id class: `absent`; `fresh` = an id nobody waits for; `table` = the id of a request currently in the
 OutgoingIqManager table (sent to `From.other`); `reg` = an id the registration manager recorded
-(`registrationIqId` / `changePasswordIqId` / `deleteAccountIqId`). -/
-inductive IdC | absent | fresh | table | reg
+(`registrationIqId` / `changePasswordIqId` / `deleteAccountIqId`); `bm` = the id of the bookmark manager's
+outstanding `setBookmarks` request (`pendingId`). -/
+inductive IdC | absent | fresh | table | reg | bm
   deriving DecidableEq, Repr
 
 inductive Tag
@@ -200,9 +201,11 @@ def blockingBeh (sub : Bool) (s : Stanza) : Beh :=
     .reply (if s.type = .set ∧ (s.frm = .none ∨ s.frm = .ownBare) ∧ sub = true then .result else .error)
   else .pass
 
-/-- QXmppBookmarkManager.cpp:129 with no `setBookmarks` request outstanding (`pendingId` empty) -/
+/-- QXmppBookmarkManager.cpp:129 -/
 def bookmarkBeh (s : Stanza) : Beh :=
-  if headIs s .query .priv && headFlag s then .swallow else .pass
+  if headIs s .query .priv && headFlag s then .swallow
+  else if s.id = .bm then .swallow   -- `!pendingId.isEmpty() && id == pendingId`, any type
+  else .pass
 
 /-- QXmppMamManager.cpp:148 (the `<iq/>` branch: isMamResultIq) -/
 def mamBeh (s : Stanza) : Beh :=
@@ -289,6 +292,58 @@ def rowOf : Mgr → Row
   | .vcard => ⟨.vcard, false, vcardBeh⟩
   | .version => ⟨.version, false, versionBeh⟩
   | m => ⟨m, false, passBeh⟩
+
+/-! ### The same handlers with /verif/fixes/C08-*.diff applied (not today's code; selected in the driver with
+the argument `fixed`, see Props: `C08_holds_after_fixes`) -/
+
+/-- C08-vcard-requests.diff: get/set are left to the fallback -/
+def vcardFixedBeh (s : Stanza) : Beh :=
+  if headIs s .vCard .vcard then (if s.type = .get ∨ s.type = .set then .pass else .swallow) else .pass
+
+/-- C08-roster-get-and-reply-to.diff: `get` is left to the fallback, the push result is addressed to the sender -/
+def rosterFixedBeh (s : Stanza) : Beh :=
+  if !headIs s .query .roster then .pass
+  else if s.frm = .domain ∨ s.frm = .other then .pass
+  else if s.type = .get then .pass
+  else if parsedType s.type = .set then .reply .result
+  else .swallow
+
+/-- C08-legacy-managers-requests.diff -/
+def archiveFixedBeh (s : Stanza) : Beh :=
+  if s.type = .get ∨ s.type = .set then .pass else archiveBeh s
+def bookmarkFixedBeh (s : Stanza) : Beh :=
+  if s.type = .get ∨ s.type = .set then .pass else bookmarkBeh s
+def mamFixedBeh (s : Stanza) : Beh :=
+  if s.type = .get ∨ s.type = .set then .pass else mamBeh s
+def uploadRequestFixedBeh (s : Stanza) : Beh :=
+  if s.type = .get ∨ s.type = .set then .pass else uploadRequestBeh s
+def registrationFixedBeh (s : Stanza) : Beh :=
+  if s.type = .get ∨ s.type = .set then .pass else registrationBeh s
+def rpcFixedBeh (s : Stanza) : Beh :=
+  let q := namedHasNs s .query .rpc
+  if q && s.type = .set then .reply .error
+  else if q && s.type = .result then .swallow
+  else if s.type = .error && (named s .error).isSome && q then .swallow
+  else .pass
+
+/-- C08-transfer-responses-and-get.diff -/
+def transferFixedBeh (s : Stanza) : Beh :=
+  let ibb := headIs s .close .ibb || headIs s .data .ibb || headIs s .openT .ibb
+  if isResp s.type && ibb then .pass
+  else if s.type = .get && (headIs s .query .bytestreams || namedHasNs s .si .si) then .pass
+  else transferBeh s
+
+def rowOfFixed : Mgr → Row
+  | .vcard => ⟨.vcard, false, vcardFixedBeh⟩
+  | .roster => ⟨.roster, false, rosterFixedBeh⟩
+  | .archive => ⟨.archive, false, archiveFixedBeh⟩
+  | .bookmark => ⟨.bookmark, false, bookmarkFixedBeh⟩
+  | .mam => ⟨.mam, false, mamFixedBeh⟩
+  | .uploadRequest => ⟨.uploadRequest, false, uploadRequestFixedBeh⟩
+  | .registration => ⟨.registration, false, registrationFixedBeh⟩
+  | .rpc => ⟨.rpc, false, rpcFixedBeh⟩
+  | .transfer => ⟨.transfer, false, transferFixedBeh⟩
+  | m => rowOf m
 
 /-- `QXmppClient(BasicExtensions)`, in registration order (QXmppClient.cpp:345-349) -/
 def defaultSet : List Row := [.roster, .vcard, .version, .entityTime, .discovery].map rowOf
@@ -384,7 +439,7 @@ def defectCell : Mgr → Stanza → Bool
   | .archive, s =>
     isReq s.type &&
       (namedNsFlag s .chat .archive || headIs s .list .archive || headIs s .pref .archive)
-  | .bookmark, s => isReq s.type && headIs s .query .priv && headFlag s
+  | .bookmark, s => isReq s.type && ((headIs s .query .priv && headFlag s) || s.id = .bm)
   | .mam, s => isReq s.type && namedHasNs s .fin .mam
   | .registration, s => isReq s.type && (s.id = .reg || headIs s .query .register)
   | .rpc, s =>
